@@ -356,3 +356,77 @@ def sync_timeout_retransmits_within_budget(retries: int, timed_out: bool):
         ensures("removed-when-budget-exhausted", both(sock.sends == 0, h.should_remove_handler))
     else:
         ensures("one-retransmission-per-retry", both(sock.sends == 1, h._retry_count == retries - 1, not h.should_remove_handler))
+
+
+# ------------------------------------------------ the simulator with its unreliability switched on (per-segment loss)
+class SubChainMonitor:
+    """the lossy simulator may leave segments out, but whatever it sends is THE chain element of its position"""
+
+    def __init__(self, spa, start, length):
+        self.spa = spa
+        self.start = start
+        self.length = length
+        self.last = -1
+        self.count = 0
+        self.ok = True
+
+    def queue_send(self, handler, destination):
+        c = handler._content
+        idx = byte_at(c, 5)
+        self.ok = both(self.ok, idx > self.last, idx < nseg(self.length), handler.parms == destination)
+        n = nseg(self.length)
+        if n <= 27:
+            for k in range(27):
+                if k < n:
+                    self.ok = both(self.ok, implies(idx == k, c == statv(self.spa, self.start, self.length, k)))
+        self.last = idx
+        self.count = self.count + 1
+
+
+class Loss:
+    pattern = None
+    calls = 0
+
+
+@summary("geckolib.utils.simulator:GeckoSimulator._should_ignore", name="arbitrary_loss",
+         note="the simulator's unreliability (random.random() > reliability): an arbitrary decision per call")
+def arbitrary_loss(self, handler, sender, respect_rferr=True):
+    i = Loss.calls
+    Loss.calls = i + 1
+    if i == 0:
+        return False                                   # the request itself gets through (otherwise nothing is sent at all)
+    return Loss.pattern(i)
+
+
+@loop_contract("geckolib.utils.simulator:GeckoSimulator._on_status_block", 0,
+               header="for idx, start in enumerate(range(handler.start, handler.start + handler.length, self._STATUS_BLOCK_SEGMENT_SIZE))")
+class sim_lossy_loop:
+    """after k iterations: only chain elements with position < k were queued, each the element of its position"""
+
+    @staticmethod
+    def havoc(L, k):
+        m = L.self._socket
+        m.ok = True
+        m.last = fresh_int("last_sent", -1, 26)
+        assume(m.last < k)
+        Loss.calls = k + 1
+
+    @staticmethod
+    def inv(L, k):
+        m = L.self._socket
+        return both(m.ok, m.last < k)
+
+
+@harness(prop="C01", target="geckolib.utils.simulator:GeckoSimulator._on_status_block", uses=["arbitrary_loss"], loops=["sim_lossy_loop"],
+         name="lossy_simulator_sends_only_elements_of_the_chain")
+def lossy_simulator_sends_only_elements_of_the_chain(spa: bytes, start: int, length: int):
+    """segments the unreliable simulator does send keep their positional index / next / payload: the client's
+    out-of-sequence rule then rejects a chain with a hole instead of installing shifted bytes"""
+    requires(valid_request(spa, start, length))
+    Loss.pattern = fresh_predicate("segment_lost")
+    Loss.calls = 0
+    mon = SubChainMonitor(spa, start, length)
+    sim = new(GeckoSimulator, _socket=mon, structure=SpaStruct(spa), _reliability=0.5, _do_rferr=False)
+    sim._on_status_block(Req(start, length), SENDER)
+    ensures("only-chain-elements-in-increasing-position", mon.ok)
+    cover("reached-end", True)
